@@ -1,0 +1,14 @@
+//go:build verif
+
+package database
+
+// VerifHook is called at named yield points of the subscription notification and cancel paths when
+// built with the "verif" tag. A conformance harness installs a function that blocks the calling
+// goroutine until its scheduler releases it, and may log the point.
+var VerifHook func(point string)
+
+func verifPoint(point string) {
+	if h := VerifHook; h != nil {
+		h(point)
+	}
+}
